@@ -168,7 +168,7 @@ class FixedGaussianNoise(Module):
             shape = p.shape if len(p.shape) == 1 else p.shape[:-1]
 
         if noise is not None:
-            return DiagLinearOperator(noise)
+            return DiagLinearOperator(self._lower_bounded(noise))
         elif shape[-1] == self.noise.shape[-1]:
             return DiagLinearOperator(self.noise)
         else:
